@@ -920,6 +920,7 @@ def plan(tier, seed):
     for i, fn in enumerate(names):
         shards[i % nshard].append([fn.stream, fn.function])
     tasks = [("catalogue", {}), ("isolation", {})]
+    tasks += [("pair", {"shard": i, "of": 4, "rounds": 1 if tier == "quick" else 12}) for i in range(4)]
     per = 12 if tier == "quick" else 2000
     for i, sh in enumerate(shards):
         if sh:
@@ -962,8 +963,47 @@ def check_isolation(sf):
     return None
 
 
+PAIR_HOT = ["functions/sfdl_tokenizer.py", "variables/functions.py", "functions/streams_functions.py", "functions/base.py"]
+
+
+def check_pair(case):
+    """Two threads work on the SAME stream/function at the same time (a receive thread decoding a message while the
+    application builds one of that function): each must see what a single thread sees. Threads switch at generated
+    line-level preemptions inside the structure reader, the function base class and the S/F lookup."""
+    from vf.conc import run_threads
+
+    inner = {k: case[k] for k in ("sf", "hdr", "v")}
+    if check_case(inner) is not None:
+        return None, 0  # judged by the sequential tasks
+    outs, hits = run_threads([lambda: check_case(inner), lambda: check_case(inner)], case["sched"])
+    for val, exc in outs:
+        if exc is not None:
+            if isinstance(exc, HarnessError):
+                raise exc
+            return Failure(f"concurrent-users:raises:{type(exc).__name__}", case, _exc(exc), "the result a single thread gets"), hits
+        if val is not None:
+            return Failure("concurrent-users:" + val.bucket.split(":S")[0], case, val.observed, val.expected), hits
+    return None, hits
+
+
 def run_task(name, kw, ctx):
     fns, items = catalogue()
+    if name == "pair":
+        names = sorted(fns)
+        for r in range(kw["rounds"]):
+            for i, sf in enumerate(names):
+                if i % kw["of"] != kw["shard"] or fns[sf].shape is None:
+                    continue
+                if ctx.out_of_time():
+                    return
+                cases_ = sweep_cases(fns[sf], items, ctx.seed + r, False)
+                _, inner = cases_[(r * 3) % len(cases_)]
+                rnd = random.Random(ctx.seed * 131 + i * 17 + r)
+                case = dict(inner, pair=1, sched={"seed": rnd.randrange(1, 2**31), "switch": 0.5, "pprob": rnd.choice([0.01, 0.03, 0.1]), "hot": PAIR_HOT})
+                f, hits = check_pair(case)
+                ctx.case(case, hits > 0, ["pair:two-concurrent-users-of-one-function"] + (["pair:preempted-inside-the-library"] if hits else []), key=chash(case))
+                ctx.report(f)
+        return
     if name == "isolation":
         for sf in sorted(fns):
             case = {"isolation": list(sf)}
@@ -1006,6 +1046,8 @@ def run_task(name, kw, ctx):
 
 
 def replay(case, ctx):
+    if case.get("pair"):
+        return check_pair(case)[0]
     if "isolation" in case:
         return check_isolation(tuple(case["isolation"]))
     if "catalogue" in case:
